@@ -11,6 +11,6 @@ if ! cmp -s $DEMO/patch.confirm.diff $DEMO/patch.diff; then echo "NOTE: worktree
 git apply -R $DEMO/patch.confirm.diff || { echo "cannot reverse patch" >> $LOG; exit 2; }
 /venv/bin/python $DEMO/demo.py > $DEMO/demo_without.out 2>&1; echo "demo_without_change_exit=$?" >> $LOG
 git apply $DEMO/patch.confirm.diff || { echo "cannot re-apply patch" >> $LOG; exit 2; }
-/venv/bin/python /tmp/vtools/run_stable.py $WT > $DEMO/stable.out 2>&1; echo "stable_tests_exit=$?" >> $LOG
+/venv/bin/python /verif/tools/run_stable.py $WT > $DEMO/stable.out 2>&1; echo "stable_tests_exit=$?" >> $LOG
 tail -3 $DEMO/stable.out >> $LOG
 cat $LOG
